@@ -1101,5 +1101,172 @@ theorem count_putBytes (cp : Nat) (h0 : 0x20 ≤ cp) (hc : ¬ (0x7f ≤ cp ∧ c
   · simp
   · omega
 
+
+/-! ### what makes a step an error, declaratively -/
+
+theorem fullwidth_lo : 0xa0 ≤ (Width.Table.at Gen.Width.fullwidth 0).1 := by decide +kernel
+
+theorem bisearch_fullwidth_low (cp : Nat) (h : cp < 0xa0) : Width.bisearch Gen.Width.fullwidth cp = false := by
+  unfold Width.bisearch
+  have := fullwidth_lo
+  split
+  · rfl
+  · have hlt : cp < (Width.Table.at Gen.Width.fullwidth 0).1 := by omega
+    simp only [hlt, true_or, if_true]
+
+/-- The three error tests on a decoded code point (`cp < 0x20`, `0x80 ≤ cp < 0xa0`, `wcwidth = -1`)
+    together say: C0 control, DEL or C1 control. -/
+theorem ctl_iff (cp : Nat) :
+    ((cp < 0x20 ∨ (cp ≥ 0x80 ∧ cp < 0xa0)) ∨ Width.wcwidth cp = -1) ↔ IsControl cp := by
+  unfold IsControl
+  constructor
+  · rintro (h | h)
+    · omega
+    · by_cases hz : cp = 0
+      · omega
+      · by_cases hc : cp < 32 ∨ (0x7f ≤ cp ∧ cp < 0xa0)
+        · omega
+        · exact absurd h (wcwidth_ne_neg_one cp hz hc)
+  · intro h
+    by_cases h7 : cp = 0x7f
+    · right
+      subst h7
+      unfold Width.wcwidth
+      rw [bisearch_fullwidth_low _ (by omega)]
+      decide
+    · left; omega
+
+theorem contLoop_none_of_zero (mem : Mem) : ∀ (k q cp : Nat), (∃ i, i < k ∧ (mem (q + i)).toNat = 0) →
+    ∃ hi, contLoop mem k q cp = (none, hi) := by
+  intro k
+  induction k with
+  | zero => rintro q cp ⟨i, hi, _⟩; omega
+  | succ k ih =>
+    rintro q cp ⟨i, hi, hz⟩
+    unfold contLoop
+    by_cases h0 : (mem q).toNat = 0
+    · exact ⟨q + 1, by simp [h0]⟩
+    · simp only [h0, if_false]
+      have hi0 : i ≠ 0 := by rintro rfl; exact h0 (by simpa using hz)
+      exact ih (q + 1) _ ⟨i - 1, by omega, by rw [show q + 1 + (i - 1) = q + i by omega]; exact hz⟩
+
+theorem nextUtf8_trunc_nul (mem : Mem) (p : Nat) (len : Option Nat) (hl : len ≠ some 0)
+    (hn : leadLen (mem p).toNat ≠ 0) (hlt : lenLt len (leadLen (mem p).toNat) = false)
+    (hz : ∃ i, 1 ≤ i ∧ i < leadLen (mem p).toNat ∧ (mem (p + i)).toNat = 0) :
+    ∃ hi, nextUtf8 mem p len = .err hi := by
+  have hb : 0xc0 ≤ (mem p).toNat := by
+    unfold leadLen at hn; split at hn
+    · exact absurd rfl hn
+    · omega
+  obtain ⟨i, h1, h2, h3⟩ := hz
+  obtain ⟨hi, hcl⟩ := contLoop_none_of_zero mem (leadLen (mem p).toNat - 1) (p + 1) (leadBits (mem p).toNat)
+    ⟨i - 1, by omega, by rw [show p + 1 + (i - 1) = p + i by omega]; exact h3⟩
+  refine ⟨hi, ?_⟩
+  unfold nextUtf8
+  have h00 : (mem p).toNat ≠ 0 := by omega
+  have h80 : ¬ (mem p).toNat < 0x80 := by omega
+  simp only [hl, h00, h80, hn, hlt, Bool.false_eq_true, if_false, hcl]
+
+theorem nextUtf8_complete (mem : Mem) (p : Nat) (len : Option Nat)
+    (hn : leadLen (mem p).toNat ≠ 0) (hlt : lenLt len (leadLen (mem p).toNat) = false)
+    (hnz : ∀ i, 1 ≤ i → i < leadLen (mem p).toNat → (mem (p + i)).toNat ≠ 0) :
+    nextUtf8 mem p len = .ok (leadLen (mem p).toNat) (seqValue mem p (leadLen (mem p).toNat))
+      (p + leadLen (mem p).toNat) := by
+  have hcases : leadLen (mem p).toNat = 2 ∨ leadLen (mem p).toNat = 3 ∨ leadLen (mem p).toNat = 4 := by
+    rcases leadLen_cases (mem p).toNat with h | h | h | h
+    · exact absurd h hn
+    · exact Or.inl h
+    · exact Or.inr (Or.inl h)
+    · exact Or.inr (Or.inr h)
+  rcases hcases with h | h | h
+  · have hr : 0xc0 ≤ (mem p).toNat ∧ (mem p).toNat < 0xe0 := by
+      unfold leadLen at h; (repeat' split at h) <;> omega
+    rw [h] at hlt hnz ⊢
+    rw [nextUtf8_2 mem p len hlt hr.1 hr.2 (hnz 1 (by omega) (by omega))]; rfl
+  · have hr : 0xe0 ≤ (mem p).toNat ∧ (mem p).toNat < 0xf0 := by
+      unfold leadLen at h; (repeat' split at h) <;> omega
+    rw [h] at hlt hnz ⊢
+    rw [nextUtf8_3 mem p len hlt hr.1 hr.2 (hnz 1 (by omega) (by omega)) (hnz 2 (by omega) (by omega))]; rfl
+  · have hr : 0xf0 ≤ (mem p).toNat ∧ (mem p).toNat < 0xf8 := by
+      unfold leadLen at h; (repeat' split at h) <;> omega
+    rw [h] at hlt hnz ⊢
+    rw [nextUtf8_4 mem p len hlt hr.1 hr.2 (hnz 1 (by omega) (by omega)) (hnz 2 (by omega) (by omega))
+      (hnz 3 (by omega) (by omega))]; rfl
+
+/-- The step after `nextUtf8` succeeded: error iff the code point is a control. -/
+theorem stepAt_of_ok (mem : Mem) (p : Nat) (len : Option Nat) (hl : len ≠ some 0) (h0 : (mem p).toNat ≠ 0)
+    (n cp hi : Nat) (hd : nextUtf8 mem p len = .ok n cp hi) :
+    ((∃ h, stepAt mem p len = .err h) ↔ IsControl cp) ∧
+    (¬ IsControl cp → stepAt mem p len = .ch n cp (Width.wcwidth cp) hi) := by
+  unfold stepAt
+  simp only [hl, h0, hd, if_false]
+  have hc := ctl_iff cp
+  by_cases h1 : cp < 0x20 ∨ (cp ≥ 0x80 ∧ cp < 0xa0)
+  · simp only [h1, if_true]
+    exact ⟨⟨fun _ => hc.1 (Or.inl h1), fun _ => ⟨_, rfl⟩⟩, fun hn => absurd (hc.1 (Or.inl h1)) hn⟩
+  · simp only [h1, if_false]
+    by_cases h2 : Width.wcwidth cp = -1
+    · simp only [h2, if_true]
+      exact ⟨⟨fun _ => hc.1 (Or.inr h2), fun _ => ⟨_, rfl⟩⟩, fun hn => absurd (hc.1 (Or.inr h2)) hn⟩
+    · simp only [h2, if_false]
+      refine ⟨⟨fun ⟨h, e⟩ => (nomatch e), fun hcc => ?_⟩, fun _ => trivial⟩
+      rcases hc.2 hcc with h | h
+      · exact absurd h h1
+      · exact absurd h h2
+
+theorem stepAt_err_iff (mem : Mem) (p : Nat) (len : Option Nat) :
+    (∃ hi, stepAt mem p len = .err hi) ↔ ErrAt mem p len := by
+  unfold ErrAt
+  by_cases hl : len = some 0
+  · unfold stepAt; simp [hl]
+  · by_cases h0 : (mem p).toNat = 0
+    · unfold stepAt; simp [hl, h0]
+    · simp only [ne_eq, hl, not_false_eq_true, h0, true_and]
+      by_cases ha : (mem p).toNat < 0x80
+      · -- one byte
+        have hd := nextUtf8_ascii mem p len hl h0 ha
+        have hll : leadLen (mem p).toNat = 0 := by unfold leadLen; simp; omega
+        rw [(stepAt_of_ok mem p len hl h0 _ _ _ hd).1]
+        simp only [ha, true_and, hll, not_true_eq_false, false_and, or_false]
+        constructor
+        · intro h; exact Or.inl h
+        · rintro (h | h)
+          · exact h
+          · omega
+      · by_cases hn : leadLen (mem p).toNat = 0
+        · -- invalid lead byte
+          have : ∃ hi, stepAt mem p len = .err hi := by
+            unfold stepAt nextUtf8
+            simp [hl, h0, ha, hn]
+          simp only [this, true_iff]
+          exact Or.inr (Or.inl ⟨by omega, hn⟩)
+        · by_cases hlt : lenLt len (leadLen (mem p).toNat) = true
+          · have : ∃ hi, stepAt mem p len = .err hi := by
+              unfold stepAt nextUtf8
+              simp [hl, h0, ha, hn, hlt]
+            simp only [this, true_iff]
+            exact Or.inr (Or.inr (Or.inl ⟨hn, Or.inl hlt⟩))
+          · have hlt' : lenLt len (leadLen (mem p).toNat) = false := by simpa using hlt
+            by_cases hz : ∃ i, 1 ≤ i ∧ i < leadLen (mem p).toNat ∧ (mem (p + i)).toNat = 0
+            · obtain ⟨hi, he⟩ := nextUtf8_trunc_nul mem p len hl hn hlt' hz
+              have : ∃ hi, stepAt mem p len = .err hi := by
+                unfold stepAt
+                simp [hl, h0, he]
+              simp only [this, true_iff]
+              exact Or.inr (Or.inr (Or.inl ⟨hn, Or.inr hz⟩))
+            · have hnz : ∀ i, 1 ≤ i → i < leadLen (mem p).toNat → (mem (p + i)).toNat ≠ 0 :=
+                fun i h1 h2 h3 => hz ⟨i, h1, h2, h3⟩
+              have hd := nextUtf8_complete mem p len hn hlt' hnz
+              rw [(stepAt_of_ok mem p len hl h0 _ _ _ hd).1]
+              constructor
+              · intro h; exact Or.inr (Or.inr (Or.inr ⟨hn, hlt', hnz, h⟩))
+              · rintro (h | h | h | h)
+                · omega
+                · exact absurd h.2 hn
+                · rcases h.2 with h | h
+                  · exact absurd h hlt
+                  · exact absurd h hz
+                · exact h.2.2.2
+
 end Utf8
 end Tickit
